@@ -11,14 +11,14 @@ TITLE = "log_likelihood == sum_r c_r ln(mean_h prod_j P(read|allele)) with gaps 
 ENCODED = [
     "mchap.assemble.likelihood.log_likelihood", "mchap.assemble.likelihood.log_likelihood_structural_change",
     "mchap.jitutils.structural_change", "mchap.calling.likelihood.log_likelihood_alleles",
-    "mchap.pedigree.likelihood.log_likelihood_alleles_cached",
+    "mchap.pedigree.likelihood.log_likelihood_alleles_cached", "mchap.assemble.likelihood.log_likelihood_structural_change_cached",
 ]
 STUBS = []
 ASSUMES = ["read tensor entries symbolic reals >= 0 with one symbolic NaN(gap) flag per (read, site)",
            "for the count-0 obligations the entries are > 0 (float: -inf * 0 = nan is outside the real model)",
            "genotype entries, rearrangement index vector (any vector in [0,ploidy)^ploidy), interval and read counts are symbolic integers, concretised path by path by the solver"]
 BOUNDS = {
-    "quick": "(ploidy,sites,alleles,reads) in {(2,2,2,2),(2,2,2,1),(3,2,2,1),(2,1,3,2)}, symbolic gap flags on the first read; counts in 0..3; all genotypes, all index vectors in [0,P)^P, all intervals",
+    "quick": "(ploidy,sites,alleles,reads) in {(2,2,2,2),(2,2,2,1),(3,2,2,1),(2,1,3,2)}, symbolic gap flags on the first read; counts in 0..3; all genotypes, all index vectors in [0,P)^P, all intervals; memoised structural wrapper: histories of 3 lookups over 8 genotypes of 2 haplotypes x 3 sites, interval None/[0,1)/[1,3), real arraymap of capacity 16 (a key takes 6 nodes: the third distinct key overflows)",
     "thorough": "adds gap flags on every read and shapes (3,2,2,2),(2,3,2,2),(2,2,3,2),(3,2,3,1),(4,2,2,1),(3,3,2,1)",
 }
 OUTSIDE = "larger shapes; float rounding; -inf*0 for zero-count reads of zero probability"
@@ -35,6 +35,10 @@ def configs(tier):
         for g0 in itertools.product(range(A), repeat=B):
             for group in groups:
                 out.append(dict(P=P, B=B, A=A, R=R, GR=GR, g0=list(g0), group=group))
+    # the entry point the sampler really uses for a proposed rearrangement: the memoised wrapper, over histories of lookups
+    # (2 haplotypes x 3 sites, interval None / head / tail) -- shared with C09
+    for first in ((0, 1) if tier == "quick" else (0, 1, 2, 3)):
+        out.append(dict(group="sc-cached", first=first, max=16, ncalls=3, B=3, P=2, A=2, R=0))
     return out
 
 
@@ -98,6 +102,14 @@ def _imodel(ctx):
 def run_config(c, col):
     E.use_summaries(True)
     E.reset_modules()
+    if c["group"] == "sc-cached":
+        from checks import c09
+
+        prof = E.Profile()
+        with prof:
+            c09._run_wraphist(c, col)
+        col.functions |= set(prof.names())
+        return
     E.cfg.concrete_ints = False
     lk = E.load("mchap.assemble.likelihood")
     ju = E.load("mchap.jitutils")
@@ -291,6 +303,10 @@ def replay(v):
     from mchap import jitutils as rj
 
     c = v["config"]
+    if c["group"] == "sc-cached":
+        from checks import c09
+
+        return c09._replay_wraphist(v)
     w = v["witness"] or {}
     P, B, A, R = c["P"], c["B"], c["A"], c["R"]
     k = v["kind"]
